@@ -314,5 +314,5 @@ custom("run_prefilter", "src/codemodder/codemodder.py", ["C09"],
 custom("run_tables_v", "src/codemodder/codemods/libcst_transformer.py", _RUN_PROPS,
        "run_tables_v", "run_tables", "tables", lambda tree, repo: "tables",
        printer=lambda v: "{| t_libcst := libcst_apply_guards; t_regex := regex_apply_guards; "
-                         "t_xml := xml_apply_guards; t_writers := writer_dry_guards |}",
+                         "t_xml := xml_apply_guards; t_writers := writer_dry_guards; t_diff := diff_source |}",
        doc="the orchestration tables bundled for Model/Run.v")
